@@ -676,8 +676,9 @@ pub fn step(app: &mut SApp, nm: &Names, st: &SState, op: &SOp, cfg: &Cfg, ops_al
             if !Rat::int(total).lt(&up) && Rat::int(total) != up {
                 report("rewards-overpaid", case("withdrawn plus pending never exceeds stake x rate x (1 - commission) x time / year", json!({"pair": format!("d{} v{}", d + 1, v + 1), "withdrawn_plus_pending": total.to_string(), "bound": up.show(), "bound_approx": up.to_f64()})));
             }
-            // total > low - (withdrawals + 1)
-            let slack = Rat::int(acc.withdrawals as u128 + 1);
+            // total > low - (withdrawals + 1), admitting the 18-decimal fixed-point rounding the
+            // statement itself refers to ("far below one token"): 1e-9 of a token
+            let slack = Rat::int(acc.withdrawals as u128 + 1).add(&Rat::new(1u64, 1_000_000_000u64));
             if !low.sub(&slack).lt(&Rat::int(total)) {
                 report("rewards-underpaid", case("withdrawn plus pending falls short of the linear amount by less than one token per withdrawal plus one", json!({"pair": format!("d{} v{}", d + 1, v + 1), "withdrawn_plus_pending": total.to_string(), "lower_bound_exclusive": low.sub(&slack).show(), "withdrawals": acc.withdrawals})));
             }
